@@ -234,7 +234,8 @@ def sample : Input :=
   { vec := [.ok], chainLen := 1, scheme := .x509, iface := .validator, level := .strict, revOverride := none,
     otherOverrides := [], policyForm := "code", validatorError := false, errorKind := "", callerCtx := "background",
     methods := [], servers := [], validatorImpl := "scripted", errorWithResults := false, deprecatedCtor := false, identityPlugin := false,
-    bothSupplied := false, variant := "" }
+    bothSupplied := false, variant := "", entry := .oci, companions := [], history := [], extraMethod := "",
+    timestampingSupplied := false }
 
 example : Holds { sample with vec := [.unknown, .revoked], chainLen := 2, iface := .client }
     { outcome := .unknown, named := some 0, accepted := false, resultAction := some .enforce, calls := 1, chainLen := some 2,
@@ -308,6 +309,68 @@ theorem variant_irrelevant (i : Input) (v : String) (b : Bool) (oo : List String
     (ms : List String) (sv : List (List String)) :
     run { i with variant := v, bothSupplied := b, otherOverrides := oo, policyForm := pf, errorKind := ek, callerCtx := cc, methods := ms, servers := sv, validatorImpl := vi } = run i := by
   simp [run, Input.action]
+
+/-- **history_irrelevant** (seeded change C05-19): a verifier keeps no state between calls. Which entry point
+the observed call goes through, which OTHER statements the same verifier holds (in the same document under
+another scope, or in the other document - where a statement may carry the SAME name and say something else
+about revocation), and which calls were made on it before, is not an input of the revocation decision: the
+statement applicable to the observed call decides alone. -/
+theorem history_irrelevant (i : Input) (e : Entry) (cs hs : List String) :
+    run { i with entry := e, companions := cs, history := hs } = run i := by
+  simp [run, Input.action]
+
+/-- ... and the property asks the same of the observation whatever the history was: a violation seen after a
+history is a violation of the clauses, not of a separate rule about histories -/
+theorem history_irrelevant_holds (i : Input) (e : Entry) (cs hs : List String) (o : Obs) :
+    Holds { i with entry := e, companions := cs, history := hs } o = Holds i o := by
+  simp [Holds, clauses, Input.action]
+
+/-- **dynamic_type_irrelevant** (seeded change C05-20): the object the caller supplied is consulted through the
+interface it was supplied AS. What else its dynamic type can do (a deprecated client that also has
+`ValidateContext`, a context-aware validator that also has `Validate`, whatever that other method would
+answer), and whether a timestamping validator was supplied next to it, is not an input of the decision. -/
+theorem dynamic_type_irrelevant (i : Input) (x : String) (t : Bool) :
+    run { i with extraMethod := x, timestampingSupplied := t } = run i := by
+  simp [run, Input.action]
+
+theorem dynamic_type_irrelevant_holds (i : Input) (x : String) (t : Bool) (o : Obs) :
+    Holds { i with extraMethod := x, timestampingSupplied := t } o = Holds i o := by
+  simp [Holds, clauses, Input.action]
+
+/-- the interface consulted is the one supplied, for either interface and whatever else the object can do -/
+theorem consulted_as_supplied (i : Input) (h : i.action ≠ .skip) (x : String) :
+    (run { i with extraMethod := x }).usedIface = some i.iface := by
+  rw [show run { i with extraMethod := x } = run i from by simp [run, Input.action]]
+  exact (validator_args i h).2.2.1
+
+/-- non-vacuity (seeded change C05-19): a strict OCI statement `c05` on a verifier that also holds a blob statement
+`c05` skipping revocation, after a VerifyBlob under the latter: the model still consults the validator and rejects
+the revoked chain; the observation of the changed code (validator not consulted, no revocation result, accepted) and
+the one with the blob statement's action `log` both fail `Holds` -/
+example : (run { sample with vec := [.ok, .revoked, .nonRevokable], chainLen := 3, companions := ["blob/sameWild/strict/skip"], history := ["c0"] }).outcome = .revoked := by decide
+example : Holds { sample with vec := [.ok, .revoked, .nonRevokable], chainLen := 3, companions := ["blob/sameWild/strict/skip"], history := ["c0"] }
+    { outcome := .notPerformed, named := none, accepted := true, resultAction := none, calls := 0, chainLen := none,
+      signingTime := none, usedIface := none } = false := by decide
+example : Holds { sample with vec := [.ok, .unknown, .nonRevokable], chainLen := 3, companions := ["blob/sameWild/permissive/-"], history := ["c0", "self"] }
+    { outcome := .unknown, named := some 1, accepted := true, resultAction := some .log, calls := 1, chainLen := some 3,
+      signingTime := some false, usedIface := some .validator } = false := by decide
+/-- the other direction: a blob statement that skips revocation must not inherit `enforce` from an OCI namesake -/
+example : Holds { sample with entry := .blob, revOverride := some .skip, companions := ["oci/sameWild/strict/-"], history := ["c0"] }
+    { outcome := .pass, named := none, accepted := true, resultAction := some .enforce, calls := 1, chainLen := some 1,
+      signingTime := some false, usedIface := some .validator } = false := by decide
+
+/-- non-vacuity (seeded change C05-20): a deprecated client whose dynamic type also has `ValidateContext`: served
+through that method (all OK) instead of its `Validate` (revoked leaf), the chain passes - `Holds` is false; it is
+false even when the two methods agree, because the caller's interface was not the one consulted -/
+example : Holds { sample with iface := .client, vec := [.revoked, .ok], chainLen := 2, extraMethod := "allOK" }
+    { outcome := .pass, named := none, accepted := true, resultAction := some .enforce, calls := 1, chainLen := some 2,
+      signingTime := some false, usedIface := some .validator } = false := by decide
+example : Holds { sample with iface := .client, vec := [.ok, .ok], chainLen := 2, extraMethod := "allOK" }
+    { outcome := .pass, named := none, accepted := true, resultAction := some .enforce, calls := 1, chainLen := some 2,
+      signingTime := some false, usedIface := some .validator } = false := by decide
+example : Holds { sample with iface := .client, vec := [.ok, .ok], chainLen := 2, extraMethod := "allOK" }
+    { outcome := .pass, named := none, accepted := true, resultAction := some .enforce, calls := 1, chainLen := some 2,
+      signingTime := some false, usedIface := some .client } = true := by decide
 
 /-! ### tie to the translated source -/
 
